@@ -21,7 +21,12 @@ import Ufo2ftModel.Spec.C05
     Assumption (stated, not modelled): lookup flags (IgnoreMarks / mark filtering set) only decide which glyphs BETWEEN the
     two glyphs are skipped; for an adjacent pair they do not change which rule applies.  (The writer never puts a mark glyph
     into a rule of an IgnoreMarks lookup, so the reference interpreter, which lets such a lookup skip pairs containing a mark,
-    agrees: see `C05_marks_never_in_base_lookup`.) -/
+    agrees: `C05_marks_never_in_base_lookup` in Props/C05Apply.lean.)
+
+    Reach of the tie: under `wfKern` and `ctxOK` the class rules of one emitted lookup always fit ONE format-2 subtable
+    (`bucketLookup_compat`), so generated fonts never exercise the subtable-break branch of `addClassRule` / the "covered but
+    empty cell stops the lookup" rule across subtables; those two clauses follow feaLib's source (`ClassPairPosSubtableBuilder`,
+    `ClassDefBuilder.canAdd`) and the OpenType rule, and are not observed. -/
 namespace Ufo2ft.C05
 open Ufo2ft
 
